@@ -224,3 +224,52 @@ Section Calm.
   End Coll.
 
 End Calm.
+
+(* The same rules for an invariant J that is only known to survive the steps of a class qs
+   (used inside the staging directory of create_collection, where J also tracks the staged files). *)
+Section CalmQ.
+  Variable J : asrt.
+  Variable qs : step -> Prop.
+  Hypothesis J_okq : forall st s s' t, qs st -> J s t -> apply st s = inl s' -> J s' (t ++ [(st, true)]).
+  Hypothesis J_failq : forall st s t, J s t -> J s (t ++ [(st, false)]).
+  Hypothesis qs_fsyncD : forall q, qs (FsyncD q).
+  Hypothesis qs_fsyncF : forall q, qs (FsyncF q).
+
+  Lemma calm_try_q : forall st kok kerr, qs st -> calm J kok -> (forall e, calm J (kerr e)) -> calm J (Try st kok kerr).
+  Proof.
+    intros st kok kerr Hq Hok Herr. apply calm_intro. intros s t H. unfold machine_wp. cbn [wp]. split; [exact H|]. split.
+    - intro e. apply (calm_elim _ _ (Herr e)). apply J_failq. exact H.
+    - intros s' Hs'. apply (calm_elim _ _ Hok). eapply J_okq; eauto.
+  Qed.
+  Lemma calm_do_q : forall st, qs st -> calm J (Do st).
+  Proof. intros st H. unfold Do. apply calm_try_q; [exact H | apply calm_ret | intro e; apply calm_raise]. Qed.
+  Lemma calm_fsyncD_q : forall q, calm J (fsyncD q).
+  Proof. intro q. unfold fsyncD. apply calm_try_q; [apply qs_fsyncD | apply calm_ret | intro e; apply calm_raise]. Qed.
+  Lemma calm_fsyncF_q : forall q, calm J (fsyncF q).
+  Proof. intro q. unfold fsyncF. apply calm_try_q; [apply qs_fsyncF | apply calm_ret | intro e; apply calm_raise]. Qed.
+
+  Lemma calm_MD_below_q : forall c sub, c <> [] -> (forall s t, J s t -> look s c = Some D) ->
+    qs (Mkdir (c ++ [Cache])) -> qs (Mkdir ((c ++ [Cache]) ++ [sub])) -> calm J (MD (c ++ [Cache; sub])).
+  Proof.
+    intros c sub c_ne J_dir Q1 Q2. unfold MD. rewrite rev_app_distr. cbn [rev app md_rev]. rewrite rev_involutive.
+    assert (Hex : calm J (md_rev (rev c))).
+    { apply calm_intro. intros s t H. destruct (path_snoc_cases c) as [->|[q [x Hc]]]; [congruence|].
+      rewrite Hc. rewrite rev_app_distr. cbn [rev app md_rev]. unfold machine_wp. cbn [wp].
+      rewrite rev_involutive. rewrite <- Hc. rewrite (J_dir s t H). exact H. }
+    apply calm_read. intros [[|v]|]; try apply calm_ret;
+      (apply calm_seqs; forall_split;
+       [ apply calm_read; intros [[|v']|]; try apply calm_ret;
+         (apply calm_seqs; forall_split; [ exact Hex | apply calm_do_q; exact Q1 | apply calm_fsyncD_q ])
+       | apply calm_do_q; exact Q2 | apply calm_fsyncD_q ]).
+  Qed.
+
+  Lemma calm_md_rev_q : forall rp, (forall k, qs (Mkdir (rev (skipn k rp))) \/ skipn k rp = []) -> calm J (md_rev rp).
+  Proof.
+    induction rp as [|x rest IH]; intro Hq; cbn [md_rev]; [apply calm_ret|].
+    apply calm_read. intros [[|v]|]; try apply calm_ret;
+      (apply calm_seqs; forall_split;
+       [ apply IH; intro k; apply (Hq (S k))
+       | apply calm_do_q; destruct (Hq 0%nat) as [H|H]; [exact H | discriminate]
+       | apply calm_fsyncD_q ]).
+  Qed.
+End CalmQ.
